@@ -2,9 +2,11 @@
 from facts import walk, callee_of, call_args, loc
 import hirq, anchors, absx, sem, driver
 
-EXPLANATION = ("R1 path-sensitive extraction of the envelope decoder: on every success path the returned id is parse_uint of the "
-               "universal INTEGER primitive child adjacent to the protocolOp child - narrowed to the 32-bit RequestId only after a range "
-               "test or by a checked conversion -, controls come from the trailing [0] constructed child; R2 every routing-map access and ID release in the driver's response arm is keyed by the ID decoded from that "
+EXPLANATION = ("R1 the envelope decoder interpreted exactly on element trees (rules/envelope.py: the TLV parser's answer fixed to one tree at a time - a well-formed LDAPMessage "
+               "without / with an empty / with one / two / any controls, any protocolOp, and its single-field mutations): a well-formed envelope is delivered under exactly the number its first "
+               "child denotes as an INTEGER within 0 .. maxInt (for any content: the unsigned reader's value of all of its octets, narrowed to the 32-bit RequestId only after a range "
+               "test or by a checked conversion), with its second child as the operation and what parse_controls makes of its trailing [0] constructed child; anything else reaches nobody; "
+               "on every success path of the decoder the message is (id, (Tag::StructureTag(op), controls)); R2 every routing-map access and ID release in the driver's response arm is keyed by the ID decoded from that "
                "very response; R3 every reply send in that arm goes to the sender obtained by that lookup and carries only data of the "
                "same decoded message; R4 the protocolOp classification table equals RFC 4511 (4,25 -> Entry; 19 -> Referral; 5 -> Done, "
                "only Done ends the search); R5 on every path of the response arm a reply send, a registration or an ID release comes after a lookup of the decoded ID that found an operation (a message nobody waits for reaches nobody and changes nothing); R6 registration keys/values "
